@@ -21,10 +21,21 @@ RULE = ('configuration sweep: a drawn sample of molecule specs (corpus, curated,
         'computes canonical string, atom orderings, ring set, fingerprints, ordered match lists of 12 SMARTS, canonicalize() '
         'result, pack bytes, components and mapped SMILES four ways (uncached, cached, on a copy, on a second fresh object in the '
         'normalisations on cold and warmed objects; a molecule\'s values after serving as a reaction member and after a rejected transaction that read the edited state. opposite order); all records must be equal within and across workers. non-trivial = molecule has Morgan ties or >= 2 '
-        'rings; distinct by canonical string')
+        'rings; distinct by canonical string'
+        '; also: state after_scoped_search: values re-read after a multi-component search with a searching scope.'
+        '; also: a fixed list of complex ions and salts with every charge -4..+4 is always swept.')
 ASSUMPTIONS = ['hash(molecule) is excluded: it hashes a string and legitimately varies with the hash seed',
                'only dependence observable within 6 hash seeds on this platform is detectable',
                'workers parse the same SMARTS in the same order (masked-atom numbering uses a global counter by design)']
+
+
+# every charge value -4..+4 on an atom whose invariant takes part in tie-breaking (complex anions with their counter ions, nitride /
+# carbide / oxide salts); several are outside the valence tables - a deterministic error is a deterministic result
+CHARGED = ['N#C[Fe-2](C#N)(C#N)(C#N)(C#N)N=O', 'Cl[Pt-2](Cl)(Cl)(Cl)(Cl)Cl.[K+].[K+]', '[N-3].[Al+3]', '[C-4].[Si+4]', '[P-3].[Ga+3]',
+           'N#C[Fe-4](C#N)(C#N)(C#N)(C#N)C#N.[K+].[K+].[K+].[K+]', 'N#C[Fe-3](C#N)(C#N)(C#N)(C#N)C#N.[K+].[K+].[K+]',
+           'F[Al-3](F)(F)(F)(F)F.[Na+].[Na+].[Na+]', '[O-2].[Zr+4].[O-2]', 'Cl[Sn-2](Cl)(Cl)(Cl)(Cl)Cl.[NH4+].[NH4+]',
+           'C[N+](C)(C)C.[O-][Cl+3]([O-])([O-])[O-]', '[O-2].[O-].[K+].[K+].[K+]', '[Mn+2].[O-2].[Mn+3].[O-2].[Mn+3].[O-2].[O-2]',
+           '[Ti-2](C)(C)(C)(C)(C)C.[Li+].[Li+]', '[Pd-2](Cl)(Cl)(Cl)Cl.[Na+].[Na+]']
 
 
 def shards(tier, seed):
@@ -39,6 +50,7 @@ def run_shard(shard, tier, seed):
     strat = molgen.mol_specs(max_atoms=14, corpus_w=6, curated_w=3, graph_w=4, literal_w=1, sym_w=3)
     hyp_run(ID, strat, collect, max_examples=shard['n'], seed=seed * 1000 + 1)
     specs.extend({'k': 'smi', 's': s} for s in molgen.curated())  # the curated list is always swept completely
+    specs.extend({'k': 'smi', 's': s} for s in CHARGED)
     rec = Recorder(ID)
     rec.collect = True
     hs = [0, 1, 4294967295] + [(seed * 7919 + k * 104729) % 4294967295 for k in (1, 2, 3)]
